@@ -31,6 +31,7 @@ RULES = {
     "cycle_shadowed": ["cycle"],              # only visible from the route's scope (known finding)
     "singleton_dep_request": ["singleton_dep"],
     "singleton_dep_transitive": ["singleton_dep"],
+    "singleton_dep_shadowed": ["singleton_dep"],   # through a transient of an ancestor, whose request-scoped input is shadowed where the singleton lives
     "singleton_two_nests_same": ["singleton_once"],
     "singleton_two_nests_diff": ["singleton_multi"],
     "singleton_not_send": ["not_send"],
@@ -474,6 +475,26 @@ def _plant(rng, spec, t, place, rule, info, M):
         cons["ins"].append([rng.choice(ring), "ref"])
         info["victim"] = list(v[:3])
         info["ring"] = ring
+        return True
+
+    if rule == "singleton_dep_shadowed":
+        # ancestor blueprint: R request-scoped, transient T(&R); nested blueprint: its own transient constructor for R and
+        # the singleton S(T). T is resolved where T was registered, so S still reaches the request-scoped R.
+        base = rng.randrange(len(t.parent))
+        rs = rng.choice(t.anc(base))
+        s2 = t.new_scope(rng, base)
+        r = new_ctor(spec, "request", [])
+        tr = new_ctor(spec, "transient", [[r, "ref"]])
+        sg = new_ctor(spec, "singleton", [[tr, rng.choice(["ref", "val"])]])
+        for c, sc in ((tr, rs), (r, rs), (sg, s2)):
+            t.ops[sc].insert(0, ["ctor", c])
+            place[("c", c)] = sc
+        xc = xcomp(spec, "ctor", out=r, life="transient", ins=[])
+        t.ops[s2].insert(0, xreg(xc))
+        if rng.random() < 0.7:
+            hx = xcomp(spec, "handler", methods=["GET"], path="/%s/shadow" % M, ins=[[sg, "ref"]])
+            t.ops[s2].append(xreg(hx))
+        info["victim"] = None
         return True
 
     if rule in ("singleton_dep_request", "singleton_dep_transitive"):
